@@ -31,6 +31,7 @@ enum Caps : unsigned {
   CAP_NONLINEAR = 1u << 13,    // var*var, var/var
   CAP_DISEQ = 1u << 14,        // != in conditions
   CAP_CALL_INTRA = 1u << 15,   // callsite to an unknown function (intra-procedural view)
+  CAP_SIMPLE_CST = 1u << 16,   // conditions only of the forms x ~ c and x ~ y (machine-integer programs)
   CAP_NUM_ALL = CAP_ARITH | CAP_DIV | CAP_UNSIGNED | CAP_BITWISE | CAP_CAST | CAP_SELECT | CAP_HAVOC |
                 CAP_UNREACHABLE | CAP_ASSERT | CAP_NONLINEAR | CAP_DISEQ | CAP_UNSTRUCTURED,
 };
@@ -132,7 +133,7 @@ public:
     return lin_t(ivar());
   }
   cst_t constraint() {
-    unsigned shape = t.pick(6);
+    unsigned shape = t.pick(cap(CAP_SIMPLE_CST) ? 2 : 6);
     lin_t l, r;
     switch (shape) {
     case 0: l = lin_t(ivar()); r = lin_t(cnst()); break;
@@ -164,7 +165,10 @@ public:
   }
   cst_t assert_constraint() {
     static const int64_t loose[] = {10, 100, 1000, 1 << 20};
-    switch (t.pick(5)) {
+    unsigned ak = t.pick(5);
+    if (cap(CAP_SIMPLE_CST) && (ak == 2 || ak == 3))
+      ak = 0;
+    switch (ak) {
     case 0: return constraint();
     case 1: {
       var_t v = ivar();
